@@ -221,7 +221,7 @@ public:
         UTAP::StatementBuilder{const_cast<UTAP::Document&>(doc)}, tc{const_cast<UTAP::Document&>(doc)}
     {}
 
-    void clear();
+    virtual void clear();
     const std::list<PropInfo>& getProperties() const;
 
     // parse queries in buffer
@@ -262,6 +262,7 @@ protected:
 public:
     TigaPropertyBuilder(const UTAP::Document& doc): PropertyBuilder{doc} {}
 
+    void clear() override;
     void property() override;
     void handle_error(const UTAP::TypeException&) override;
 
